@@ -284,6 +284,8 @@ def fam_expiry(rng, cfgs=(CFG_B, CFG_C, CFG_D, CFG_E, CFG_F)):
                     else:
                         ops.append(mine([]))
                     ops += [sub(1), sub(2), get(1, 1), add(1, 3, valid(3)) if step % 2 == 0 else get(2, 2)]
+                    if step >= 2:
+                        ops.append(add(1, 1, valid(1)))      # already responded; refused as expired once the subscription has run out
                     if reorg and step in (Dd - 1, Dd + G - 1, Dd + G):
                         ops.append({"op": "reorg", "depth": 2, "blocks": [[], [], []]})
                         ops.append(POLL)
@@ -356,7 +358,8 @@ def fam_resubmit(rng, cfg=CFG_A):
         if state == "watched":
             ops += [add(1, 1, valid(1)), add(1, 1, valid(1)), add(1, 1, valid(1, 2))]
         elif state == "responded":
-            ops += [add(1, 1, valid(1)), mine([D(1)]), add(1, 1, valid(1)), add(1, 1, valid(1, 2))]
+            ops += [add(1, 1, valid(1)), mine([D(1)]), add(1, 1, valid(1)), add(1, 1, valid(1, 2)), sub(1), add(1, 1, valid(1, 3)), sub(1),
+                    add(1, 1, garbled(5000)), sub(1)]
         elif state == "completed":
             ops += [add(1, 1, valid(1)), mine([D(1)]), mine([P(1)]), ff(100, "end"), ff(1, "each"), sub(1), add(1, 1, valid(1))]
         elif state == "dropped_invalid":
@@ -695,6 +698,10 @@ def fam_outage(rng, cfg=CFG_A, ms=1500):
         ops = [reg(1), add(1, 1, valid(1)), add(1, 2, valid(2)), down] + [POLL] * k + refused + [mine([D(1)], poll=False), POLL, up,
                mine([D(2)], poll=False)] + apoll("P1", ms) + [get(1, 1), get(1, 2), reg(2), sub(1)]
         out.append(scen("outage-idle-k%d" % k, cfg, ops))
+    # (d2) the node comes back having lost its last block (worse tip): reachable again all the same
+    ops = [reg(1), add(1, 1, valid(1)), mine([]), down, POLL] + refused[:2] + [{"op": "reorg", "depth": 1, "blocks": []}, up, POLL, reg(2), get(1, 1),
+           mine([], poll=False), mine([D(1)], poll=False)] + apoll("P1", ms) + [get(1, 1), sub(1)]
+    out.append(scen("outage-worse-tip", cfg, ops))
     # (e) download failures in the middle of a multi-block poll (no restart): everything is answered by the following polls
     for kind in ("block", "header", "best"):
         for off in (0, 1, 2):
@@ -746,6 +753,12 @@ def fam_conc(rng, tier="quick"):
     # a reorg delivered while a late appointment for the disconnected block's dispute is answered
     pre = [reg(1), mine([D(1)]), {"op": "reorg", "depth": 1, "blocks": [[], [D(1)]], "to_mempool": True}]
     out.append(conc("conc-trigger-reorg", CFG_A, pre, [cadd(1, 1), CPOLL], pb, mx, rnd))
+    # get_subscription_info against writers of the same user
+    CSUB = {"op": "sub", "u": 1}
+    out.append(conc("conc-sub-register", CFG_A, [reg(1), add(1, 1)], [CSUB, {"op": "register", "u": 1}], pb, mx, rnd))
+    out.append(conc("conc-sub-add", CFG_A, [reg(1), add(1, 1)], [CSUB, cadd(1, 2, valid(2, 3))], pb, mx, rnd))
+    pre = [reg(1), add(1, 1, valid(1, 3)), mine([D(1)]), mine([P(1, 3)]), ff(99, "end"), mine([], poll=False)]
+    out.append(conc("conc-sub-block-complete", CFG_L, pre, [CSUB, CPOLL], pb, mx, rnd))
     # three operations
     out.append(conc("conc-add-add-block", CFG_A, [reg(1), reg(2), mine([D(1)], poll=False)], [cadd(1, 1), cadd(2, 1, valid(1, 2)), CPOLL], pb,
                     mx, rnd))
